@@ -1239,6 +1239,71 @@ pub fn orswot_exhaustive(out: &mut String, depth: usize) {
     rec(out, &mut vec![], &mut vec![], &mut know, depth);
 }
 
+/// Map::validate_merge (C17, correspondence): correct use (each actor at one replica; `VM` both ways before merges) and misuse
+/// (one actor id used at two replicas through `GA`, on keys that exist in both maps or in one only), all three nestings.
+pub fn map_vm(out: &mut String, rng: &mut Rng, cases: usize) {
+    let tys: [&'static str; 3] = ["map_mvreg", "map_orswot", "map_map_mvreg"];
+    NO_RMCTX.store(true, std::sync::atomic::Ordering::Relaxed);
+    for case in 0..cases {
+        let ty = tys[case % 3];
+        let misuse = case % 2 == 1;
+        let upd = |rng: &mut Rng, key: usize| -> String {
+            match ty {
+                "map_orswot" => format!("up {} add {}", key, rng.below(3)),
+                "map_mvreg" => format!("up {} write {}", key, 5 + 2 * rng.below(2)),
+                _ => format!("up {} up {} write {}", key, rng.below(2), 5 + 2 * rng.below(2)),
+            }
+        };
+        writeln!(out, "T {} 3", ty).unwrap();
+        let mut id = 0;
+        // well-behaved actors 1 and 2 create some keys, shared with everybody (ops or merges)
+        for _ in 0..(1 + rng.below(3)) {
+            let r = 1 + rng.below(2);
+            writeln!(out, "G {} o{} {}", r, id, { let k = rng.below(3); upd(rng, k) }).unwrap();
+            id += 1;
+        }
+        for r in 0..3 {
+            if rng.chance(1, 2) {
+                for o in 0..id {
+                    writeln!(out, "D {} o{}", r, o).unwrap();
+                }
+            } else {
+                writeln!(out, "M {} {}", r, 1 + rng.below(2)).unwrap();
+                writeln!(out, "M {} {}", r, 2 - rng.below(2)).unwrap();
+            }
+        }
+        for _ in 0..(2 + rng.below(4)) {
+            let r = rng.below(3);
+            if misuse && rng.chance(1, 2) {
+                // actor 7 is used at two different replicas
+                let r2 = (r + 1 + rng.below(2)) % 3;
+                writeln!(out, "GA {} 7 o{} {}", r, id, { let k = rng.below(3); upd(rng, k) }).unwrap();
+                id += 1;
+                writeln!(out, "GA {} 7 o{} {}", r2, id, { let k = rng.below(3); upd(rng, k) }).unwrap();
+                id += 1;
+            } else if rng.chance(1, 5) {
+                writeln!(out, "G {} o{} rm {}", r, id, rng.below(3)).unwrap();
+                id += 1;
+            } else {
+                writeln!(out, "G {} o{} {}", r, id, { let k = rng.below(3); upd(rng, k) }).unwrap();
+                id += 1;
+            }
+            let a = rng.below(3);
+            let b = (a + 1 + rng.below(2)) % 3;
+            writeln!(out, "VM {} {}", a, b).unwrap();
+            writeln!(out, "VM {} {}", b, a).unwrap();
+            if rng.chance(1, 3) {
+                writeln!(out, "M {} {}", a, b).unwrap();
+            }
+        }
+        for a in 0..3 {
+            for b in 0..3 {
+                writeln!(out, "VM {} {}", a, b).unwrap();
+            }
+        }
+    }
+}
+
 pub fn main(args: &[String]) {
     let profile = args.first().map(|s| s.as_str()).unwrap_or("");
     let seed: u64 = args.get(1).and_then(|s| s.parse().ok()).unwrap_or(1);
@@ -1568,6 +1633,7 @@ pub fn main(args: &[String]) {
         }
         "merkle_small_all_orders" => crate::gen_merkle::small_all_orders(&mut out, &mut rng, cases),
         "map_scenario" => map_scenario(&mut out, &mut rng, cases),
+        "map_vm" => map_vm(&mut out, &mut rng, cases),
         // `cases` is the script length here (quick 4, thorough 5)
         "orswot_exhaustive" => orswot_exhaustive(&mut out, cases.clamp(1, 6)),
         "orswot_overtake" => orswot_overtake(&mut out, &mut rng, cases),
